@@ -209,13 +209,15 @@ def build(ctx):
             v = None
             for dt in ("i8", "i4", "f4"):
                 f = ctx.engine.func(FLUID + "Fluid." + mname)
-                outs = ctx.engine.run_paths(f, lambda: ([c19.fluid_obj(ctx), parr(dt)], {}), pc=[tm.ge(n, tm.const(1))])
+                outs = [o_ for o_ in ctx.engine.run_paths(f, lambda: ([c19.fluid_obj(ctx), parr(dt)], {}), pc=[tm.ge(n, tm.const(0))]) if o_.kind != "infeasible"]
                 pe = pelem(dt)
                 spec = sx.merge_values([(tm.land(*o.pc), o.value) for o in paths(ctx, target, targs(pe)) if o.kind == "return"])
                 for o in outs:
                     if o.kind != "return":
-                        return be.Verdict(be.REFUTED, "CAS", witness={"dtype": DTN[dt]}, detail=f"raises {o.value}")
+                        return be.Verdict(be.REFUTED, "CAS", witness={"dtype": DTN[dt], "path": [str(c_) for c_ in o.pc][:3]}, detail=f"Fluid.{mname} raises {o.value} for an admissible {DTN[dt]} array on the path {[str(c_) for c_ in o.pc][:3]}")
                     res = o.value.arr if hasattr(o.value, "arr") else o.value
+                    if not isinstance(res, ArrV) or res.ndim != 1 or (res.shape[0] is not n and be.prove_smt(tm.eq(res.shape[0], n), list(o.pc)).status != be.PROVED):
+                        return be.Verdict(be.REFUTED, "STRUCT", witness={"dtype": DTN[dt], "length": [str(c_) for c_ in o.pc if "n" in str(c_)][:2]}, detail=f"Fluid.{mname}: the result does not have the input's shape ({type(res).__name__}, shape {getattr(res, 'shape', '()')}) on the path {[str(c_) for c_ in o.pc][:3]}")
                     if res.dtype not in ("f8", "f4"):
                         return be.Verdict(be.REFUTED, "STRUCT", witness={"dtype": DTN[dt]}, detail=f"result dtype {res.dtype} for {DTN[dt]} input")
                     facts = [qf(j) for qf in o.qfacts] + list(o.facts) + list(o.pc)
@@ -246,6 +248,13 @@ def build(ctx):
             fl = Fl(200.0, 35.0, 0.8, 650.0, 3.0)
             pb = fl.pressure_bubblepoint()
             for dtn in ("int64", "int32", "float32", "float64"):
+                for arr in (np.array([2500]).astype(dtn), np.array([], dtype=dtn)):
+                    try:
+                        got = np.asarray(getattr(fl, mname)(arr))
+                    except Exception as e:  # noqa: BLE001
+                        return {"reproduced": True, "input": {"method": mname, "dtype": dtn, "pressure": arr.tolist()}, "observed": f"{type(e).__name__}: {e}", "required": "an array of the input's shape"}
+                    if got.shape != arr.shape:
+                        return {"reproduced": True, "input": {"method": mname, "dtype": dtn, "pressure": arr.tolist()}, "observed": {"shape": list(got.shape)}, "required": {"shape": list(arr.shape)}}
                 arr = np.array([500, 1500, 2500, np.floor(pb), np.ceil(pb), 3500, 6000] + ([pb] if dtn == "float64" else [])).astype(dtn)
                 got = np.asarray(getattr(fl, mname)(arr), dtype=float)
                 want = np.array([np.asarray(getattr(fl, mname)(np.array([x.item()], dtype=float)))[0] for x in arr], dtype=float)
